@@ -543,12 +543,193 @@ let run_osrm () =
   | UB _ -> print_string "ub\n"
   | _ -> print_string "other\n"
 
+(* ---- load mode: Loader2.load_all / update on decoded-level files (correspondence with the real loaders) ----
+   input:   dataset <B> end  [layout]  [from dataset <A> end]
+            { case <label>  <fault>*  [start healthy|faulted]  { update <k> <name>*k }* }*
+   faults (applied to the messages `encode_all B` produces, in the order given):
+     missing <coll> | garbled <coll>          coll = agencies services nodes lines paths scenarios dataSources
+                                              FMissing (file deleted) / FGarbled [] (0-byte file: the packed reader throws
+                                              kj::Exception before any entry is read)
+     missing_linefile <line> | garbled_linefile <line> | missing_all_linefiles
+     missing_stopfile <stop> | garbled_stopfile <stop>
+     inc <name>                               the cross-file inconsistencies of tools/faults.py inconsistencies()
+   layout: the decoded image of the directory tools/l3.py write_cache writes rather than encode_all's own choice:
+     agency 0 and service 0 always listed, dataSources present with no entry, consecutive trips of one service of a
+     line file share a schedule.
+   output:  one line per case:
+     <label> load <STATUS> <MISSING_DATA code | -> agencies=.. services=.. nodes=.. lines=.. paths=.. scenarios=.. trips=.. read_error=0|1
+       { | update <names> <STATUS> <code> <sizes> refs_safe=0|1 }*
+   update: Loader2.update (files of B with the faults) names state, state = load_all of the healthy files of A
+   (start healthy) or of the faulted files themselves (start faulted); consecutive updates continue from the state reached. *)
+let unknown_id = nat_of_int 9999        (* faults.UNKNOWN: ...-000000009999 under a kind prefix no object has *)
+let unknown_mode = nat_of_int 99        (* "hovercraft": not one of the 15 mode shortnames *)
+
+let status_name st =
+  match int_of_nat st with
+  | 0 -> "READY -" | 2 -> "NO_AGENCIES MISSING_DATA_AGENCIES" | 3 -> "NO_LINES MISSING_DATA_LINES"
+  | 4 -> "NO_PATHS MISSING_DATA_PATHS" | 5 -> "NO_SERVICES MISSING_DATA_SERVICES" | 6 -> "NO_SCENARIOS MISSING_DATA_SCENARIOS"
+  | 7 -> "NO_SCHEDULES MISSING_DATA_SCHEDULES" | 8 -> "NO_NODES MISSING_DATA_NODES" | n -> Printf.sprintf "STATUS_%d ?" n
+
+let sizes_text (m : mem) =
+  let z = sizes_of m in
+  Printf.sprintf "agencies=%d services=%d nodes=%d lines=%d paths=%d scenarios=%d trips=%d"
+    (int_of_nat z.z_agencies) (int_of_nat z.z_services) (int_of_nat z.z_nodes) (int_of_nat z.z_lines)
+    (int_of_nat z.z_paths) (int_of_nat z.z_scenarios) (int_of_nat z.z_trips)
+
+let map_dec g = function FDecoded m -> FDecoded (g m) | x -> x
+let map_first g = function [] -> [] | x :: r -> g x :: r
+let rec map_first_such p g = function [] -> [] | x :: r -> if p x then g x :: r else x :: map_first_such p g r
+let at_id (f : nat -> 'a) (id : nat) (v : 'a) : nat -> 'a = fun k -> if k = id then v else f k
+
+let layout_of (d : data) (f : fs) : fs =
+  let with0 mk ids = if List.mem O ids then List.map mk ids else List.map mk (O :: ids) in
+  let rec group = function
+    | a :: b :: r when a.sm_service = b.sm_service -> group ({ a with sm_trips = a.sm_trips @ b.sm_trips } :: r)
+    | a :: r -> a :: group r
+    | [] -> [] in
+  { f with f_agencies = FDecoded (with0 (fun a -> { am_id = Some a; am_rest_ok = true }) (agencies_of d));
+           f_services = FDecoded (with0 (fun a -> { vm_id = Some a; vm_rest_ok = true }) (Model.services_of d));
+           f_datasources = FDecoded [];
+           f_line = (fun l -> map_dec group (f.f_line l)) }
+
+let garbled = FGarbled []
+let coll_fault (f : fs) (missing : bool) (c : string) : fs =
+  match c with
+  | "agencies" -> { f with f_agencies = if missing then FMissing else garbled }
+  | "services" -> { f with f_services = if missing then FMissing else garbled }
+  | "nodes" -> { f with f_nodes = if missing then FMissing else garbled }
+  | "lines" -> { f with f_lines = if missing then FMissing else garbled }
+  | "paths" -> { f with f_paths = if missing then FMissing else garbled }
+  | "scenarios" -> { f with f_scenarios = if missing then FMissing else garbled }
+  | "dataSources" -> { f with f_datasources = if missing then FMissing else garbled }
+  | c -> failwith ("load: unknown collection " ^ c)
+
+let has_trips = function FDecoded m -> List.exists (fun s -> s.sm_trips <> []) m | _ -> false
+(* the first per-line file (order of the lines collection) that holds a trip; g rewrites its schedule list *)
+let on_first_trip_file (d : data) (f : fs) (g : sched_msg list -> sched_msg list) : fs =
+  match List.find_opt (fun l -> has_trips (f.f_line l.l_id)) d.d_lines with
+  | None -> f
+  | Some l -> { f with f_line = at_id f.f_line l.l_id (map_dec g (f.f_line l.l_id)) }
+let on_first_trip d f (g : trip_msg -> trip_msg) =
+  on_first_trip_file d f (map_first_such (fun s -> s.sm_trips <> []) (fun s -> { s with sm_trips = map_first g s.sm_trips }))
+
+let inconsistency (d : data) (f : fs) (name : string) : fs =
+  let unk = Some unknown_id in
+  let zs l = List.map z_of_int l in
+  match name with
+  | "trip_unknown_path" -> on_first_trip d f (fun t -> { t with tm_path = unk })
+  | "trip_bad_uuid_text" -> on_first_trip d f (fun t -> { t with tm_path = None })
+  | "trip_unknown_service" -> on_first_trip_file d f (map_first (fun s -> { s with sm_service = unk }))
+  | "trip_no_stop_times" -> on_first_trip d f (fun t -> { t with tm_arr = []; tm_dep = []; tm_cb = []; tm_cu = [] })
+  | "trip_too_many_stop_times" ->
+    let extra = zs [ 90000; 90100; 90200; 90300; 90400; 90500; 90600; 90700 ] and ones = zs [ 1; 1; 1; 1; 1; 1; 1; 1 ] in
+    on_first_trip d f (fun t -> { t with tm_arr = t.tm_arr @ extra; tm_dep = t.tm_dep @ extra; tm_cb = t.tm_cb @ ones; tm_cu = t.tm_cu @ ones })
+  | "trip_short_flag_array" -> on_first_trip d f (fun t -> { t with tm_cu = zs [ 1 ] })
+  | "trip_arrival_before_departure" ->
+    on_first_trip d f (fun t -> match t.tm_arr, t.tm_dep with
+        | a0 :: _ :: ar, d0 :: _ -> { t with tm_arr = a0 :: z_of_int (int_of_z d0 - 1) :: ar }
+        | _, _ -> t)
+  | "trip_negative_departure" ->
+    on_first_trip d f (fun t -> match t.tm_dep with _ :: r -> { t with tm_dep = z_of_int (-1) :: r } | [] -> t)
+  | "trips_times_backwards" ->
+    let back t = { t with tm_arr = List.map (fun _ -> z_of_int (-5)) t.tm_arr } in
+    { f with f_line = (fun l -> map_dec (List.map (fun s -> { s with sm_trips = List.map back s.sm_trips })) (f.f_line l)) }
+  | "line_unknown_agency" -> { f with f_lines = map_dec (map_first (fun l -> { l with lm_agency = unk })) f.f_lines }
+  | "line_unknown_mode" -> { f with f_lines = map_dec (map_first (fun l -> { l with lm_mode = unknown_mode })) f.f_lines }
+  | "nodefile_unknown_stop" | "nodefile_bad_uuid_text" ->
+    (match d.d_nodes with
+     | [] -> f
+     | n :: _ ->
+       let v = if name = "nodefile_unknown_stop" then unk else None in
+       { f with f_stop0 = at_id f.f_stop0 n (map_dec (map_first (fun r -> { r with fm_node = v })) (f.f_stop0 n)) })
+  | "nodefile_short_times" ->
+    (* the travel-time list of the LAST stop file is empty: with at least one transferable stop listed the loader returns
+       -EBADMSG before it reads a row (nodes_cache_fetcher.cpp:128-136, the length test of /repo 71e00b0), which is what a
+       decoder exception before the first row does *)
+    (match List.rev d.d_nodes with
+     | [] -> f
+     | n :: _ -> (match f.f_stop0 n with
+         | FDecoded (_ :: _) -> { f with f_stop0 = at_id f.f_stop0 n garbled }
+         | _ -> f))
+  | "path_unknown_stop" ->
+    { f with f_paths = map_dec (map_first_such (fun p -> p.pm_nodes <> []) (fun p -> { p with pm_nodes = map_first (fun _ -> unk) p.pm_nodes })) f.f_paths }
+  | "path_unknown_line" -> { f with f_paths = map_dec (map_first (fun p -> { p with pm_line = unk })) f.f_paths }
+  | "path_bad_json" -> { f with f_paths = map_dec (map_first (fun p -> { p with pm_segs = None })) f.f_paths }
+  | "scenario_unknown_service" ->
+    { f with f_scenarios = map_dec (map_first_such (fun c -> c.cm_services <> []) (fun c -> { c with cm_services = map_first (fun _ -> unk) c.cm_services })) f.f_scenarios }
+  | "scenario_unknown_line_and_mode" ->
+    let step1 = map_first_such (fun c -> c.cm_exceptLines = []) (fun c -> { c with cm_exceptLines = [ unk ] }) in
+    let step2 = map_first_such (fun c -> c.cm_onlyModes = []) (fun c -> { c with cm_onlyModes = [ unknown_mode ] }) in
+    { f with f_scenarios = map_dec (fun l -> step2 (step1 l)) f.f_scenarios }
+  | "scenario_bad_uuid_text" -> { f with f_scenarios = map_dec (map_first (fun c -> { c with cm_id = None })) f.f_scenarios }
+  | "agency_bad_uuid_text" -> { f with f_agencies = map_dec (map_first (fun a -> { a with am_id = None })) f.f_agencies }
+  | "node_bad_uuid_text" -> { f with f_nodes = map_dec (map_first (fun _ -> None)) f.f_nodes }
+  | n -> failwith ("load: unknown inconsistency " ^ n)
+
+let cname_of = function
+  | "all" -> CAll | "data_sources" -> CName KDataSources | "persons" -> CName KPersons | "od_trips" -> CName KOdTrips
+  | "agencies" -> CName KAgencies | "services" -> CName KServices | "nodes" -> CName KNodes | "lines" -> CName KLines
+  | "paths" -> CName KPaths | "scenarios" -> CName KScenarios | "schedules" -> CName KSchedules | _ -> CUnknown
+
+let run_load (db : data) =
+  let layout = (match peek () with Some "layout" -> ignore (next ()); true | _ -> false) in
+  let files d = let f = encode_all d in if layout then layout_of d f else f in
+  let da = (match peek () with
+      | Some "from" -> ignore (next ()); (match next () with "dataset" -> () | t -> failwith ("from: expected dataset, got " ^ t)); read_dataset ()
+      | _ -> db) in
+  let healthy = lazy (fst (load_all (files da))) in
+  let is_case () = (match peek () with Some "case" | None -> true | _ -> false) in
+  while peek () <> None do
+    (match next () with "case" -> () | t -> failwith ("load: expected case, got " ^ t));
+    let label = next () in
+    let f = ref (files db) in
+    let state = ref None in
+    let start_faulted = ref false in
+    let out = Buffer.create 256 in
+    let emitted_load = ref false in
+    let emit_load () =
+      if not !emitted_load then begin
+        emitted_load := true;
+        let (m, err) = load_steps !f in
+        let (m', st) = load_all !f in
+        assert (sizes_of m = sizes_of m');
+        Buffer.add_string out (Printf.sprintf "%s load %s %s read_error=%d" label (status_name st) (sizes_text m) (if err then 1 else 0))
+      end in
+    while not (is_case ()) do
+      match next () with
+      | "missing" -> f := coll_fault !f true (next ())
+      | "garbled" -> f := coll_fault !f false (next ())
+      | "missing_linefile" -> let l = nat () in f := { !f with f_line = at_id !f.f_line l FMissing }
+      | "garbled_linefile" -> let l = nat () in f := { !f with f_line = at_id !f.f_line l garbled }
+      | "missing_all_linefiles" -> f := { !f with f_line = (fun _ -> FMissing) }
+      | "missing_stopfile" -> let n = nat () in f := { !f with f_stop0 = at_id !f.f_stop0 n FMissing }
+      | "garbled_stopfile" -> let n = nat () in f := { !f with f_stop0 = at_id !f.f_stop0 n garbled }
+      | "inc" -> f := inconsistency db !f (next ())
+      | "start" -> (match next () with "healthy" -> start_faulted := false | "faulted" -> start_faulted := true | t -> failwith ("start " ^ t))
+      | "update" ->
+        emit_load ();
+        let names = counted next in
+        let s0 = (match !state with
+            | Some s -> s
+            | None -> { sv_mem = (if !start_faulted then fst (load_all !f) else Lazy.force healthy); sv_dangling = [] }) in
+        let s1 = update !f (List.map cname_of names) s0 in
+        state := Some s1;
+        Buffer.add_string out (Printf.sprintf " | update %s %s %s refs_safe=%d" (String.concat "," names) (status_name (status_of s1))
+                                 (sizes_text s1.sv_mem) (if refs_safe s1 then 1 else 0))
+      | t -> failwith ("load: unexpected token " ^ t)
+    done;
+    emit_load ();
+    print_string (Buffer.contents out); print_newline ()
+  done
+
+
 let () =
   if Sys.argv.(1) = "osrm" then (run_osrm (); exit 0);
   let mode = Sys.argv.(1) in
   load Sys.argv.(2);
   (match next () with "dataset" -> () | t -> failwith ("expected dataset, got " ^ t));
   let d = read_dataset () in
+  if mode = "load" then (run_load d; exit 0);
   let ops = read_ops () in
   match mode with
   | "model" -> run_model d ops
